@@ -68,6 +68,8 @@ pub struct StepInfo {
     pub hist_first_read: bool,
     /// the model's alive set differs from keys() after this call
     pub desync: bool,
+    /// merge only: how the right-hand graph's complete observation changed (None = unchanged)
+    pub h_changed: Option<String>,
 }
 
 /// Facts derived from the call history and the observed results only.
@@ -381,6 +383,7 @@ impl Runner {
                 exp: Exp::None,
                 hist_first_read: false,
                 desync: false,
+                h_changed: None,
             };
         }
         self.done.push(call.clone());
@@ -388,8 +391,11 @@ impl Runner {
         let n = self.cfg.n;
         let mut replacement: Option<Box<dyn G>> = None;
         let mut hgraph: Option<Box<dyn G>> = None;
+        let mut h_before = None;
         if let Call::Merge { h, .. } = call {
-            hgraph = Some(build_tree(n, h));
+            let hg = build_tree(n, h);
+            h_before = crate::obs::try_observe(&*hg, crate::obs::ObsLevel::FULL).ok();
+            hgraph = Some(hg);
         }
         let g = &mut self.g;
         let res = catch_unwind(AssertUnwindSafe(|| -> Ret {
@@ -589,6 +595,13 @@ impl Runner {
         if desync {
             self.desynced = true;
         }
+        let mut h_changed = None;
+        if let (Some(hg), Some(b)) = (&hgraph, &h_before) {
+            match crate::obs::try_observe(&**hg, crate::obs::ObsLevel::FULL) {
+                Ok(a) => h_changed = crate::obs::diff(b, &a),
+                Err(e) => h_changed = Some(format!("observing h after the merge panicked: {e}")),
+            }
+        }
         StepInfo {
             idx,
             call: call.clone(),
@@ -600,6 +613,7 @@ impl Runner {
             exp,
             hist_first_read,
             desync,
+            h_changed,
         }
     }
 }
